@@ -41,6 +41,14 @@ type LoopContract struct {
 	Decreases  *Clause
 }
 
+// Pred is a file-level spec predicate (macro): //@ pred name(a, b) = expr
+type Pred struct {
+	Name   string
+	Params []string
+	Expr   ast.Expr
+	Text   string
+}
+
 type Contract struct {
 	FuncName string // relative name, e.g. "(*CandidateNode).UpdateFrom", "deleteFromArray", "sortByOperator$1"
 	Pkg      string
@@ -65,6 +73,10 @@ var clauseRe = regexp.MustCompile(`^(requires|ensures|invariant|decreases|modifi
 var labelRe = regexp.MustCompile(`^@([A-Za-z0-9_.\-]+)\s*`)
 var propsRe = regexp.MustCompile(`^\{([A-Z0-9, ]+)\}\s*`)
 
+var predRe = regexp.MustCompile(`^pred\s+([A-Za-z0-9_]+)\s*\(([^)]*)\)\s*=\s*(.*)$`)
+
+var filePreds = map[string]*Pred{}
+
 func parseContractFile(path, pkg string) ([]*Contract, error) {
 	f, err := os.Open(path)
 	if err != nil {
@@ -77,6 +89,7 @@ func parseContractFile(path, pkg string) ([]*Contract, error) {
 	var pending *Clause
 	var pendingLoop *LoopContract
 	var pendingLet string
+	var curPred *Pred
 	inReplay := false
 	flush := func() error {
 		if pending == nil {
@@ -151,7 +164,31 @@ func parseContractFile(path, pkg string) ([]*Contract, error) {
 		if tb == "" {
 			continue
 		}
+		if strings.HasPrefix(tb, "pred ") {
+			if err := flush(); err != nil {
+				return nil, err
+			}
+			m := predRe.FindStringSubmatch(tb)
+			if m == nil {
+				return nil, fmt.Errorf("%s:%d: bad pred", path, ln)
+			}
+			pr := &Pred{Name: m[1], Text: m[3]}
+			for _, x := range strings.Split(m[2], ",") {
+				if x = strings.TrimSpace(x); x != "" {
+					pr.Params = append(pr.Params, x)
+				}
+			}
+			curPred = pr
+			cur = nil
+			filePreds[pr.Name] = pr
+			continue
+		}
+		if curPred != nil && !strings.HasPrefix(tb, "func ") && cur == nil {
+			curPred.Text += " " + tb
+			continue
+		}
 		if strings.HasPrefix(tb, "func ") {
+			curPred = nil
 			if err := flush(); err != nil {
 				return nil, err
 			}
@@ -221,6 +258,15 @@ func parseContractFile(path, pkg string) ([]*Contract, error) {
 	}
 	if err := flush(); err != nil {
 		return nil, err
+	}
+	for _, pr := range filePreds {
+		if pr.Expr == nil {
+			e, err := parser.ParseExpr(pr.Text)
+			if err != nil {
+				return nil, fmt.Errorf("%s: pred %s: %v", path, pr.Name, err)
+			}
+			pr.Expr = e
+		}
 	}
 	return out, sc.Err()
 }
